@@ -201,7 +201,11 @@ def assemble(flavour, cfg, files, active_units, ext_out, auto_weak=()):
                  '#[verifier::external_body]\npub fn ro_violation_world<\'a>() -> Tracked<&\'a mut World> { unimplemented!() }\n'
                  '/// degraded mode only: code the extraction cannot express is replaced by "anything may have happened"\n'
                  '#[verifier::external_body]\npub fn havoc_world(Tracked(w): Tracked<&mut World>) { unimplemented!() }\n'
-                 '#[verifier::external_body]\npub fn arbitrary<T>() -> T { unimplemented!() }\n')
+                 '#[verifier::external_body]\npub fn arbitrary<T>() -> T { unimplemented!() }\n'
+                 '/// `assert!(c)` / `debug_assert!(c)` panic when `c` is false: an obligation (C20)\n'
+                 '#[verifier::external_body]\npub fn rt_assert(c: bool) requires c { unimplemented!() }\n'
+                 '/// `unreachable!()` panics when reached: an obligation (C20)\n'
+                 '#[verifier::external_body]\npub fn rt_unreachable<T>() -> T requires false { unimplemented!() }\n')
     shim_cfg = cfg['shim_files']
     for entry in shim_cfg:
         if 'flavours' in entry and flavour not in entry['flavours']:
